@@ -22,6 +22,7 @@ structure DS where
   s    : St
   ka   : Nat     -- µs
   wt   : Nat     -- µs
+  dialT : Bool := false   -- the write timer in force was armed by DialAsyncTimeout: its closure carries ErrDialTimeout
 
 
 def kindOf : Option Cause → String
@@ -60,7 +61,7 @@ def parseObs (o : Option String) : Obs :=
   | none => .open
   | some v =>
     match v.splitOn ":" with
-    | [k, t] => .closed k t.toNat!
+    | [k, t] => .closed (if k == "dt" then "wt" else k) t.toNat!   -- the dial timeout is the write timer's
     | _ => .open
 
 /-- reconcile the model with an observation; returns the new state and the kind the model reports -/
@@ -150,6 +151,10 @@ def opsOf (ds : DS) (ws : List String) (at_ : Nat) : Option (List Op) :=
   | "O" :: "flush" :: k :: _ => (kOf k).map fun k => [.flush k]
   | "O" :: "close" :: _ => some [.close]
   | "O" :: "wait" :: _ => some []
+  | "O" :: "dial" :: ms :: rest =>
+    let res := (Drv.field rest "res").getD "none"
+    some ([.dial (ms.toNat! * 1000)] ++
+      (if res == "ok" then [Op.connected] else if res == "err" then [Op.write .err] else []))
   -- end-to-end tiers: what the server does, at its earliest possible time
   | "O" :: "conn" :: _ => some [.set .r (at_ + ds.ka)]
   | "O" :: "tconn" :: _ => some []                     -- std http.Server: no nbio deadline before the transfer
@@ -191,9 +196,14 @@ partial def loop (h : IO.FS.Stream) (ds : DS) : IO Unit := do
   | "O" :: _ =>
     match opsOf ds ws at_ with
     | some ops =>
+      let isDial := ws.getD 1 "" == "dial"
+      let dialT := ds.dialT || isDial
       let (s, k1, k2) := runOp ds.g ds.s ops at_ st post
-      IO.println s!"R st={k1} post={k2}"
-      loop h { ds with s }
+      let nm (k : String) : String := if k == "wt" && dialT then "dt" else k
+      IO.println s!"R st={nm k1} post={nm k2}"
+      -- the dial closure lives as long as that timer object: until the handle is dropped on an open conn
+      let dialT := if !s.closed && !(s.t .w).h then false else dialT
+      loop h { ds with s, dialT }
     | none => IO.println "bad-op"; loop h ds
   | "Q" :: _ =>
     let gbound := num ws "g" * 1000
@@ -201,6 +211,7 @@ partial def loop (h : IO.FS.Stream) (ds : DS) : IO Unit := do
     let s := tickTo s at_
     let od (d : Dir) : Bool := !s.closed && (match (s.t d).a with | some w => w + gbound ≤ s.now | none => false)
     let overdue := if od .r then "r" else if od .w then "w" else "-"
+    let k1 := if k1 == "wt" && ds.dialT then "dt" else k1
     IO.println s!"R st={k1} overdue={overdue}"
     loop h { ds with s }
   | _ => IO.println "bad-op"; loop h ds
